@@ -147,8 +147,7 @@ def run(chk, binary, count, max_objects, budget=2_500_000, per_item=120_000):
             r, c = byid[cid]
             cls = "mania-strains-ignore-map-mods" if (r["mode"] == 3 and r["settings"]["repr"] == 4
                                                       and r["settings"]["lazer_extra"]) else None
-            if cls and any(f.get("class") == cls for f in chk.findings):
-                chk.known_hits[cls] = chk.known_hits.get(cls, 0) + 1
+            if chk.known_class(cls):
                 continue
             chk.broken_obligation("correspondence",
                                   f"re-aggregation inside Coq differs from the reported rating ({c.split()[0]})",
